@@ -65,6 +65,44 @@ def wl_bloom_pairs(ctx, rng, case):
         est2, rate2, m2, k2, hname2, hf2 = est, rate, m, k, hname, hf
         ctx.count("large_bloom_pairs_beyond_64KiB")
     disk = (rng.random() < 0.3, rng.random() < 0.3)
+    if case.index % 25 == 6:
+        # est_elements given as a non-integral number (the constructor accepts any Number > 0).  Such filters cannot be exported (the
+        # footer holds an integer), so this corner has its own compact check on the bit arrays themselves.
+        from .. import refimpl as _r
+
+        for _ in range(40):
+            est_f = est + rng.choice([0.2, 0.5, 0.75, 0.999])
+            mkf = _r.bloom_sizing_simple(est_f, rate)
+            if mkf and mkf[1] >= 1:
+                break
+        else:
+            return
+        A, B = P.BloomFilter(est_f, rate, **bl.kw_hash(hf)), P.BloomFilter(est_f, rate, **bl.kw_hash(hf))
+        ka = [rng.choice(keys) for _ in range(rng.randint(1, 8))]
+        kb = [rng.choice(keys) for _ in range(rng.randint(1, 8))]
+        for x in ka:
+            A.add(x)
+        for x in kb:
+            B.add(x)
+        case.desc = {"kind": "bloom", "compat": "same", "a": (est_f, rate, hname), "fractional_est_elements": True}
+        sa, sb = bl.bits_of(A), bl.bits_of(B)
+        for first, second, tag in ((A, B, "a,b"), (B, A, "b,a")):
+            i, u, j = first.intersection(second), first.union(second), first.jaccard_index(second)
+            ctx.check(i is not None and u is not None and j is not None, "a set operation on two filters built from the same (non-integral) request returned None")
+            ctx.check((i.number_bits, i.number_hashes) == mkf and (u.number_bits, u.number_hashes) == mkf, "the result of a set operation has another geometry than its operands (non-integral est_elements)",
+                      inter=(i.number_bits, i.number_hashes), union=(u.number_bits, u.number_hashes), operands=mkf)
+            ctx.check(bl.bits_of(i) == bytes(x & y for x, y in zip(sa, sb)), "intersection is not the AND of the operands' bit arrays (non-integral est_elements)")
+            ctx.check(bl.bits_of(u) == bytes(x | y for x, y in zip(sa, sb)), "union is not the OR of the operands' bit arrays (non-integral est_elements)")
+            for x in set(ka) & set(kb):
+                ctx.check(i.check(x), "the intersection does not report a key both operands report (non-integral est_elements)", key=x)
+            both = sum(bin(x & y).count("1") for x, y in zip(sa, sb))
+            either = sum(bin(x | y).count("1") for x, y in zip(sa, sb))
+            ctx.check(abs(j - (both / either if either else 1.0)) < 1e-12, "Jaccard index is not |A and B| / |A or B| (non-integral est_elements)", got=j)
+            ctx.check(bl.bits_of(A) == sa and bl.bits_of(B) == sb, "a set operation modified an operand (non-integral est_elements)")
+        ctx.count("fractional_est_operand_pairs")
+        ctx.count("compatible_pairs_checked")
+        case.nontrivial = True
+        return
     case.desc = {"kind": "bloom", "compat": compat_kind, "a": (est, rate, hname), "b": (est2, rate2, hname2), "on_disk": disk}
     ctx.observe("pair_kinds", compat_kind)
     ctx.observe("operand_placement", str(disk))
